@@ -62,7 +62,7 @@ def sift_opts():
             'extrema_opts': {'pad_width': 2, 'mag_pad_opts': {'mode': 'mean', 'stat_length': 1}}}
 
 
-def build(emd, ep, l, D, opts):
+def build(emd, ep, l, D, opts, ro=False):
     """returns (callable, list of input arrays).  opts: dict of option dicts owned by the caller (may be re-used)."""
     S, Sp, C, U = emd.sift, emd.spectra, emd.cycles, emd.utils
     x = D['x']
@@ -111,7 +111,9 @@ def build(emd, ep, l, D, opts):
         f2 = (D['infr'] / 4)[:, None, None].copy()
         a2 = D['inam'][:, None, None].copy()
         if l == 'mismatch':
-            f2 = f2[short].copy()
+            # two kinds of disagreement in the MIDDLE argument: a few samples short, or (in read-only sessions) a single
+            # sample - a shape numpy would broadcast, so only the routine's own validation can refuse it
+            f2 = (f2[:1] if ro else f2[short]).copy()
         e, e2 = D['edges'].copy(), D['edges2'].copy()
         return (lambda: Sp.holospectrum(f, f2, a2, e, e2)), [f, f2, a2, e, e2]
     if ep == 'get_cycle_stat':
@@ -132,6 +134,15 @@ def build(emd, ep, l, D, opts):
         if l == 'mismatch':
             v = v[short].copy()
         return (lambda: C.bin_by_phase(ip, v, nbins=6)), [ip, v]
+    if ep == 'bin_by_phase_weighted':
+        # phase and data in the session's layout (or in two different accepted ones), weights a vector; the disagreement
+        # is in the MIDDLE argument: a few samples short, or (read-only sessions) one sample - broadcastable
+        ip = lay(D['ph'], {'mismatch': 'vector', 'mixed': 'column', 'mixed_rev': 'vector'}.get(l, l))
+        v = lay(x, {'mismatch': 'vector', 'mixed': 'vector', 'mixed_rev': 'column'}.get(l, l))
+        w = (1.0 + np.arange(N) % 3).copy()
+        if l == 'mismatch':
+            v = (v[:1] if ro else v[short]).copy()
+        return (lambda: C.bin_by_phase(ip, v, nbins=6, weights=w)), [ip, v, w]
     if ep == 'amplitude_normalise':
         a = lay(x, 'column')
         return (lambda: U.amplitude_normalise(a)), [a]
@@ -209,7 +220,7 @@ def normo(v):
 
 
 def one_call(emd, ep, l, ro, opts, D):
-    call, arrays = build(emd, ep, l, D, opts)
+    call, arrays = build(emd, ep, l, D, opts, ro=bool(ro))
     before = [a.tobytes() for a in arrays]
     obefore = copy.deepcopy(opts)
     if ro:
@@ -262,7 +273,7 @@ def replay(emd, hist, verdicts, D, ref, edited=False):
 def reference(emd, D):
     ref = {}
     for ep in EPS:
-        l = 'column' if ep in ('hilberthuang_1d', 'holospectrum', 'amplitude_normalise', 'amplitude_normalise_3d', 'frequency_transform_nht_3d', 'sift_second_layer', 'mask_sift_second_layer') else 'vector'
+        l = 'column' if ep in ('bin_by_phase_weighted', 'hilberthuang_1d', 'holospectrum', 'amplitude_normalise', 'amplitude_normalise_3d', 'frequency_transform_nht_3d', 'sift_second_layer', 'mask_sift_second_layer') else 'vector'
         r = one_call(emd, ep, l, False, sift_opts(), D)
         if r['outcome'] != 'returned':
             raise MachineryError('reference call of %s failed: %s' % (ep, r['exc']))
@@ -273,7 +284,7 @@ def reference(emd, D):
 REF_OF = {'phase_align_reused_iterator': 'phase_align_obj'}
 EPS = ['phase_align_reused_iterator', 'sift_second_layer', 'mask_sift_second_layer', 'get_cycle_stat_obj', 'phase_align_obj', 'get_control_points_obj', 'sift', 'ensemble_sift', 'complete_ensemble_sift', 'mask_sift', 'get_next_imf', 'get_next_imf_mask', 'interp_envelope',
        'get_padded_extrema', 'is_imf', 'frequency_transform', 'get_cycle_vector', 'hilberthuang', 'hilberthuang_1d', 'holospectrum',
-       'get_cycle_stat', 'phase_align', 'bin_by_phase', 'amplitude_normalise', 'amplitude_normalise_3d', 'frequency_transform_nht_3d']
+       'get_cycle_stat', 'phase_align', 'bin_by_phase', 'bin_by_phase_weighted', 'amplitude_normalise', 'amplitude_normalise_3d', 'frequency_transform_nht_3d']
 
 
 def _job(args):
